@@ -26,6 +26,8 @@ RULE = (
     'of the loaded history; identical text on the second dump; the replay\'s '
     'player-visible operations (kind, player, amount, cards; dealing '
     'compared per player) and final stacks/payoffs equal the original hand; '
+    'the commentary strings of the original log (incl. quotes, # and runs '
+    'of spaces) are, in order, the commentary of the replayed operations; '
     'hold\'em-family histories whose hole-card lines are replaced by ???? '
     '(sm lines kept) replay to the same stacks; corrupted histories '
     '(unknown verb, illegal amount, action of a folded player, extra '
@@ -46,7 +48,8 @@ REQUIRED = ('round_trips', 'replays_compared', 'partial_histories',
             'decimal_histories', 'user_field_histories',
             'unknown_hole_replays', 'corruptions_checked',
             'corruptions_raised', 'trimmed_short_stack_histories',
-            'commentary_histories')
+            'commentary_histories', 'commentary_sequences_compared',
+            'commentary_with_whitespace_runs')
 
 PHH_GAMES = tuple(g for g in gen.ALL_GAMES if g != 'NoLimitRoyalHoldem')
 HOLDEM_FAMILY = ('FixedLimitTexasHoldem', 'NoLimitTexasHoldem',
@@ -252,6 +255,23 @@ def check_case(res, rng, cfg, pol):
         return
     vo = visible_ops(s)
     vr = visible_ops(final)
+    # commentary strings: every comment of the original log, in order, is
+    # the commentary of some replayed operation (comments on steps the
+    # writer omits or merges become stand-alone '# ...' lines)
+    co = [o.commentary for o in s.operations if o.commentary is not None]
+    cr = [o.commentary for o in final.operations
+          if o.commentary is not None]
+    if co:
+        res.counters['commentary_sequences_compared'] += 1
+        if any('  ' in c for c in co):
+            res.counters['commentary_with_whitespace_runs'] += 1
+    if cr[:len(co)] != co if partial else cr != co:
+        k = next((i for i, (x, y) in enumerate(zip(co, cr)) if x != y),
+                 min(len(co), len(cr)))
+        res.violation(
+            f'commentary differs after the round trip at #{k}: original '
+            f'{co[k:k + 2]!r}, replay {cr[k:k + 2]!r} || {what}', payload)
+        return
     if partial:
         res.counters['partial_histories'] += 1
         if vr[:len(vo)] != vo and not (
